@@ -476,6 +476,11 @@ pub fn check_indexes(s: &CanonSnap, specs: &GraphSpecs, fail: &mut dyn FnMut(&st
 pub struct C02Oracle;
 
 impl E1Oracle for C02Oracle {
+    fn warmup(&mut self, g: &G, alphabet: &Alphabet) {
+        let mut q: Vec<N> = alphabet.names.clone();
+        q.push(ABSENT);
+        check_queries(g, &q, &mut |_, _, _, _| {});
+    }
     fn state(&mut self, s: &StateCtx, rec: &Recorder, c: &mut Counters) {
         let mut q: Vec<N> = s.alphabet.names.clone();
         q.push(ABSENT);
